@@ -2,6 +2,7 @@ import Ptn.C19.Model
 import Ptn.C19.Spec
 import Ptn.C19.Lemmas
 import Ptn.C19.Mps
+import Ptn.C19.FromTensor
 /-! Property theorems for C19. Only property theorems and non-vacuity examples live here. -/
 namespace Ptn.C19
 
@@ -158,5 +159,52 @@ example : (2 : Nat) ≤ 1 * 2 := by decide
     builder produces no term at all although the cell `(0, 0)` lies in the grid and the documented
     sum contains its field term. -/
 theorem ising_grid_1x1_empty : isingGrid 1 1 = [] ∧ InGrid 1 1 (0, 0) := by decide
+
+/-! ### `TTNO.from_tensor`: which leg ends up where -/
+
+/-- The axes list handed to `np.transpose` is a permutation of all `2n` axes whenever the leg
+    dictionary assigns the legs `0 … n-1` bijectively to the nodes (so the transposition completes
+    and loses no leg). -/
+theorem qr_shape_perm (t : RTree) (ld : Nat → Nat) (h : (t.ids.map ld).Perm (List.range t.size)) :
+    (qrShape (fun i => [ld i, t.size + ld i]) t []).Perm (List.range (2 * t.size)) := by
+  rw [qrShape_eq, List.append_nil]
+  refine (block_perm _ t).trans ?_
+  have e : t.ids.flatMap (fun i => [ld i, t.size + ld i]) =
+      (t.ids.map ld).flatMap (fun k => [k, t.size + k]) := by
+    rw [List.flatMap_map]
+  rw [e]
+  refine (List.Perm.flatMap_right _ h).trans ?_
+  refine (flatMap_pair_perm t.size _).trans ?_
+  have : 2 * t.size = t.size + t.size := by omega
+  rw [this, List.range_add]
+
+/-- For every reference tree (any shape, any child order), every leg assignment and every
+    decomposition mode (the mode only selects the external factorisation), the recursive splitting
+    produces exactly the reference tree's nodes in pre-order, each with the reference parent and
+    children (in order) and with legs `(bond to parent, bonds to the children in order,
+    leg_dict[id], half + leg_dict[id])`: every node keeps precisely its own output and input leg of
+    the dense operator, and every bond created by a factorisation joins a node to its reference
+    child.  Hence contracting the bonds gives back the input, provided each factorisation
+    reproduces its argument (the QR/SVD contract, checked numerically on every case). -/
+theorem from_tensor_legs (t : RTree) (ld : Nat → Nat) :
+    fromTensor t ld = specNodes (fun i => [ld i, t.size + ld i]) none t := by
+  unfold fromTensor
+  simp only
+  rw [qrShape_eq, List.append_nil]
+  exact rec_eq (fun i => [ld i, t.size + ld i]) (fun _ => rfl) t none
+
+/-- The resulting `TreeStructure` dict (identifier, ordered children) is the reference tree's. -/
+theorem from_tensor_structure (t : RTree) (ld : Nat → Nat) :
+    (fromTensor t ld).map (fun x => (x.id, x.children)) = t.flat := by
+  rw [from_tensor_legs, specNodes_flat]
+
+example : fromTensor (.node 0 [.node 1 [.node 3 []], .node 2 []]) (fun i => [2, 0, 3, 1].getD i 0) =
+    [⟨0, none, [1, 2], [.bond 0 1, .bond 0 2, .ax 2, .ax 6]⟩,
+     ⟨1, some 0, [3], [.bond 0 1, .bond 1 3, .ax 0, .ax 4]⟩,
+     ⟨3, some 1, [], [.bond 1 3, .ax 1, .ax 5]⟩,
+     ⟨2, some 0, [], [.bond 0 2, .ax 3, .ax 7]⟩] := by decide
+
+example : ((RTree.node 0 [.node 1 [.node 3 []], .node 2 []]).ids.map (fun i => [2, 0, 3, 1].getD i 0)).Perm
+    (List.range (RTree.node 0 [.node 1 [.node 3 []], .node 2 []]).size) := by decide
 
 end Ptn.C19
